@@ -32,6 +32,8 @@ ASSUMPTIONS = [
     "'a failed call is executed again' is checked for calls whose own task function raised; a job that fails because a child "
     "failed is legitimately re-derived from its cached single reduction, and an error handled by an enclosing `catch` is "
     "legitimately replayed through catch's own documented cache of the recovery expression",
+    "errors that cannot be pickled are only propagated, not recovered: catch(...) of such an error hashes/pickles the recover "
+    "expression that holds it and fails with TypeError on the unchanged tree (outside this property)",
     "a job that forked a thread and returned it has legitimately concluded (DONE) although the thread fails later: the FAILED "
     "chain is then required from the raising job up to that forking job, and at the root",
     "programs as in C01, error leaves at every depth; two consecutive executions on one in-memory backend under the "
@@ -106,7 +108,6 @@ def corpus():
         # an error that cannot be pickled is recorded through the Exception(repr(error)) fallback, and still propagates as itself
         "unpicklable-leaf": L.busy(1),
         "unpicklable-deep": {"result": L.pair([L.inc(1), L.busy(2)], 3)},
-        "unpicklable-caught": catch(L.inc(L.busy(3)), L.LibError, L.rec_val),
         "success": L.add(L.inc(1), b=L.twice(3)),
         "caught": L.guard(2, 2),
     }
@@ -275,7 +276,7 @@ def flush_lookups(ctx, pending):
 
 FORKERS = ("ev.fork_", "ev.forker")
 SAME_SCHED = ("in-list", "two-different", "same-call-twice", "same-call-twice-seq", "caught-then-uncaught", "deep", "map-element")
-CPU_BUDGET_QUICK, CPU_BUDGET_THOROUGH = 8.0, 330.0       # seconds of process CPU for the generated stream (not wall clock)
+CPU_BUDGET_QUICK, CPU_BUDGET_THOROUGH = 5.0, 330.0       # seconds of process CPU for the generated stream (not wall clock)
 STALE = "C12-stale-completion-event-crashes-next-execution"
 SUBRUN_REPLAY = "C12-failure-under-extended-subrun-replayed-from-cache"
 
@@ -514,7 +515,7 @@ def run(ctx):
             continue
         progs.append(("g%d" % i, e, sx))
     replies = ctx.model("C01", ["(eval i%d %s)" % (FUEL, sx) for _, _, sx in progs])
-    n_all = ctx.n(5, 200)
+    n_all = ctx.n(3, 200)
     pending = []
     ncorpus = len(corpus())
     cpu_budget = CPU_BUDGET_QUICK if ctx.tier == "quick" else CPU_BUDGET_THOROUGH
@@ -543,7 +544,7 @@ def run(ctx):
                 pass
     reps = ctx.model("C01", ["(eval i%d %s)" % (FUEL, sx) for _, _, sx in sub])
     for i, ((name, e, sx), rep) in enumerate(zip(sub, reps)):
-        if ctx.tier == "quick" and name in ("sub-in-list", "sub-shallow"):
+        if ctx.tier == "quick" and name not in ("sub-leaf", "sub-deep", "sub-ok"):
             continue
         run_subrun(ctx, G, R, name, e, sx, rep, ne=False)
         if i % 3 == 0 and ctx.tier != "quick" or name == "sub-deep":
